@@ -134,7 +134,20 @@ def run(c):
                           what='StoppedAfterShutdown')
     n = 0
     shown = 0
-    for walk in core.random_walks(r.graph, rng, 40 if quick else 800, max_len=40, cover_edges=not quick):
+    # histories that are always replayed: the application installs hooks while the agent runs with tracing disabled;
+    # a shutdown in which every step fails; start twice
+    full = ['ShutdownBegin'] + ['ShutdownStep'] * 5 + ['ShutdownMark']
+    curated = []
+    for nt in (True, False):
+        for names in (['Start', 'AppSetsHooks'] + full if nt else ['Start', 'Start'] + full,
+                      ['Start'] + full + ['HostEventAfter'] if not nt else ['Start'] + full + ['Start', 'AppSetsHooks'] + full):
+            ws = core.walks_matching(r.graph, names, init_filter=lambda st, nt=nt: st['noTrace'] == nt, limit=200)
+            # prefer walks whose shutdown has the most failing steps
+            ws.sort(key=lambda w: -max([len(x[2]['failing']) for x in w]))
+            curated += ws[:2]
+    import itertools
+    for walk in itertools.chain(curated, core.random_walks(r.graph, rng, 40 if quick else 800, max_len=40,
+                                                           cover_edges=not quick)):
         exc = Exception if n % 2 == 0 else D.R.__dict__.get('BaseFaultX', KeyboardInterrupt) if False else Exception
         res = replay_walk(c, walk, wd, exc)
         n += 1
@@ -155,5 +168,13 @@ def run(c):
                     break
 
 
+def run_with_e2e(c):
+    run(c)
+    # end to end: after the real deep.shutdown() over a real gRPC connection nothing reaches the service any more,
+    # every snapshot handed over before was delivered, and no trace function is left installed
+    from .. import e2e_leg
+    e2e_leg.e2e_leg(c, random.Random(c.seed + 22), 6 if c.tier == 'quick' else 80)
+
+
 if __name__ == '__main__':
-    core.main('C14', run)
+    core.main('C14', run_with_e2e)
